@@ -2,6 +2,7 @@ CONSTANTS
  MaxLen = 3
  Alpha = "all"
  Variant = "pinned"
+ Pols = {"all", "g1", "g2"}
 SPECIFICATION Spec
-INVARIANT EmitPrediction
+INVARIANT Refines
 CHECK_DEADLOCK FALSE
